@@ -13,6 +13,8 @@ import (
 	"github.com/lesismal/nbio/verifsys"
 )
 
+var verifWakeTable []*Conn
+
 // VerifWakeEngine is an Engine that is never Start()ed.
 type VerifWakeEngine struct {
 	G *Engine
@@ -23,7 +25,15 @@ type VerifWakeEngine struct {
 // synchronously on the goroutine that causes them (the engine's Async queue is property C19's business).
 func VerifNewWakeEngine(conf Config, ep *verifsys.Epoll, onOpen func(c *Conn), onClose func(c *Conn, err error)) *VerifWakeEngine {
 	g := NewEngine(conf)
-	g.connsUnix = make([]*Conn, verifsys.SimBase+verifsys.MaxSim)
+	// one connection table for all engines of the process (8 MiB of pointers: allocating and scanning a fresh one per
+	// case dominated the harness's run time); only the simulated descriptors' slots are ever used
+	if verifWakeTable == nil {
+		verifWakeTable = make([]*Conn, verifsys.SimBase+verifsys.MaxSim)
+	}
+	for i := verifsys.SimBase; i < len(verifWakeTable); i++ {
+		verifWakeTable[i] = nil
+	}
+	g.connsUnix = verifWakeTable
 	g.isOneshot = (g.EpollMod == EPOLLET && g.EPOLLONESHOT == EPOLLONESHOT)
 	p := &poller{g: g, epfd: ep.Fd, evtfd: -1, index: 0, pollType: "POLLER"}
 	p.ReadBuffer = make([]byte, g.ReadBufferSize)
